@@ -307,6 +307,8 @@ func TestC15Enum(t *testing.T) {
 		{"number", "1.5"}, {"string", "'a'"}, {"boolean", "true()"}, {"node-set", "//a"}, {"empty", "//zz"},
 		// strings of other lengths and with multi-byte characters: index arithmetic on bytes vs characters
 		{"long-string", "'abcabc'"}, {"multibyte-string", "'éx'"}, {"empty-string", "''"},
+		// strings that mean something to a regular expression or to a replacement template
+		{"group-pattern", "'(a)(b)?'"}, {"dollar-at-end", "'x$'"}, {"dollar-reference", "'$2$'"},
 	}
 	var exprs []string
 	var kinds []string
